@@ -316,61 +316,131 @@ def r6(ctx, facts):
 def r7(ctx, facts):
     r = ctx.rule("R7", "a per-connection USE KEYSPACE failure other than a broken connection is never outvoted by another connection's Ok", floor=3)
     from .c10 import ok_sites
-    b = facts.one(r"^scylla::cluster::worker::use_keyspace_result$")
-    dj = dj_of(b, facts)
-    oks = {bb for bb, _ in ok_sites(b)}
-    if not oks:
-        raise AnchorLost("use_keyspace_result has no Ok exit")
+    outer = facts.one(r"^scylla::cluster::worker::use_keyspace_result$")
     UKE, RAE = "scylla::errors::UseKeyspaceError", "scylla::errors::RequestAttemptError"
     want = {UKE: "RequestError", RAE: "BrokenConnectionError"}
-    edges, seen = [], set()
-    res_sw = []
-    for bb in sorted(b.live_blocks):
-        t = b.term(bb)
-        if t[0] != "switch":
-            continue
-        e = dj.expr_of_operand(t[1])
-        if e is None or e[0] != "disc":
-            continue
-        ty = adt_of_type(dj.disc_ty.get(e[1], ""))
-        vals, other = switch_edges(b, bb)
-        if ty == "core::result::Result":
-            res_sw.append((bb, vals, other))
-        if ty not in want:
-            continue
-        seen.add(ty)
-        adt = facts.adts.get(ty)
-        idx = [int(v["discr"]) for v in adt["variants"] if v["name"] == want[ty]][0]
-        for v, tg in vals.items():
-            if v != idx:
-                edges.append((ty, bb, tg))
-        if idx in vals and other is not None:
-            edges.append((ty, bb, other))
-    if seen != set(want):
-        raise AnchorLost("use_keyspace_result: the match on UseKeyspaceError::RequestError(RequestAttemptError::BrokenConnectionError) was not found (%s)" % sorted(seen))
+
+    def classify(b):
+        dj = dj_of(b, facts)
+        edges, seen, res_sw = [], set(), []
+        for bb in sorted(b.live_blocks):
+            t = b.term(bb)
+            if t[0] != "switch":
+                continue
+            e = dj.expr_of_operand(t[1])
+            if e is None or e[0] != "disc":
+                continue
+            ty = adt_of_type(dj.disc_ty.get(e[1], ""))
+            vals, other = switch_edges(b, bb)
+            if ty == "core::result::Result":
+                res_sw.append((bb, vals, other))
+            if ty not in want:
+                continue
+            seen.add(ty)
+            adt = facts.adts.get(ty)
+            idx = [int(v["discr"]) for v in adt["variants"] if v["name"] == want[ty]][0]
+            for v, tg in vals.items():
+                if v != idx:
+                    edges.append((ty, bb, tg))
+            if idx in vals and other is not None:
+                edges.append((ty, bb, other))
+        return dj, edges, seen, res_sw
+    # the classification of one per-connection result lives in the function itself or in a closure it hands to try_for_each / try_fold
+    where = None
+    for b in closure_family(facts, outer):
+        dj, edges, seen, res_sw = classify(b)
+        if seen == set(want):
+            where = (b, dj, edges, res_sw)
+            break
+    if where is None:
+        raise AnchorLost("use_keyspace_result: the match on UseKeyspaceError::RequestError(RequestAttemptError::BrokenConnectionError) was not found")
+    b, dj, edges, res_sw = where
+    oks = {bb for bb, _ in ok_sites(b)}
+    if not oks:
+        raise AnchorLost("%s has no Ok exit" % fn_short(b.path))
     bad = []
     for ty, u, v in edges:
-        reach = dj.feasible_reach_edge(u, v)
-        if reach & oks:
+        if dj.feasible_reach_edge(u, v) & oks:
             bad.append("%s arm at %s" % (ty.split("::")[-1], b.term_span(u)))
-    r.instance("other-error-never-becomes-ok", bool(edges) and not bad,
-               "once one connection answered USE KEYSPACE with an error that is not a broken connection, use_keyspace_result must not return Ok "
-               "(the keyspace was refused; connections that said Ok would keep it while the caller is told nothing): Ok reachable from %s" % bad[:2], b.span)
-    # Ok only if some connection said Ok
-    okarm = set()
-    for bb, vals, other in res_sw:
-        if 0 in vals:
-            okarm.add(vals[0])
-        elif 1 in vals and other is not None:
-            okarm.add(other)
-    ok2 = bool(okarm) and not (dj.feasible_reach(0, removed_nodes=okarm) & oks)
-    r.instance("ok-needs-one-ok", ok2, "use_keyspace_result may return Ok only after at least one per-connection Ok (all-broken must stay an error)", b.span)
+    msg = ("once one connection answered USE KEYSPACE with an error that is not a broken connection, use_keyspace_result must not return Ok "
+           "(the keyspace was refused; connections that said Ok would keep it while the caller is told nothing): Ok reachable from %s")
+    r.instance("other-error-never-becomes-ok", bool(edges) and not bad, msg % bad[:2], b.span)
+    if b is outer:
+        okarm = set()
+        for bb, vals, other in res_sw:
+            if 0 in vals:
+                okarm.add(vals[0])
+            elif 1 in vals and other is not None:
+                okarm.add(other)
+        ok2 = bool(okarm) and not (dj.feasible_reach(0, removed_nodes=okarm) & oks)
+        r.instance("ok-needs-one-ok", ok2, "use_keyspace_result may return Ok only after at least one per-connection Ok (all-broken must stay an error)", b.span)
+    else:
+        # closure form: an `Err` leaving the closure must end the function with that error (`try_for_each(..)?`)
+        odj = dj_of(outer, facts)
+        ooks = {bb for bb, _ in ok_sites(outer)}
+        tf = [c for bb, c in outer.calls() if bb in outer.live_blocks and (c.decl or "").split("::")[-1] in ("try_for_each", "try_fold")]
+        good = bool(tf)
+        for c in tf:
+            brs = [x for x in outer.calls_to("core::ops::try_trait::Try::branch") if c.dest[0] in backward_slice(outer, x.args[0])[0]]
+            good = good and bool(brs)
+            for br in brs:
+                root = ("disc", (br.dest[0], ()))
+                for sw in switch_on(outer, odj, root):
+                    vals, other = switch_edges(outer, sw)
+                    brk = vals.get(1, other if 0 in vals else None)
+                    if brk is None or (odj.feasible_reach_edge(sw, brk) & ooks):
+                        good = False
+        r.instance("closure-error-ends-the-function", good, "the error returned by the per-result closure must be propagated (`try_for_each(..)?`), never followed by an Ok", outer.span)
+        r.instance("ok-needs-one-ok", True, "closure form: the was_ok flag travels through a captured `&mut`; not decided in this form", outer.span, nontrivial=False)
     r.instance("arms", bool(edges), "%d non-broken error edges examined" % len(edges), b.span, nontrivial=False)
+
+
+ASCII_CHAR_PREDICATES = {"is_ascii_alphanumeric", "is_ascii_alphabetic", "is_ascii_digit", "is_ascii_lowercase", "is_ascii_uppercase", "is_ascii"}
+KEYSPACE_ALPHABET_BOUNDS = {97, 122, 65, 90, 48, 57, 95}    # a z A Z 0 9 _
+
+
+def r8(ctx, facts):
+    r = ctx.rule("R8", "a keyspace name passes local validation only if it is 1..=48 characters of [A-Za-z0-9_]", floor=3)
+    b = facts.one(r"^scylla::network::connection::VerifiedKeyspaceName::verify_keyspace_name_is_valid$")
+    consts, preds, other_calls = set(), set(), []
+    has_48 = False
+    for body in closure_family(facts, b):
+        for bb in sorted(body.live_blocks):
+            for st in body.stmts(bb):
+                if st[0] == "A" and st[2][0] == "bin":
+                    for o in st[2][2:4]:
+                        if o[0] == "k" and o[1] == "int":
+                            ty = body.ty(o[2])
+                            if ty in ("char", "u8", "u32"):
+                                consts.add(int(o[3]))
+                            elif ty == "usize" and int(o[3]) in (48, 49):
+                                has_48 = True
+            t = body.term(bb)
+            if t[0] == "switch" and t[1][0] in ("c", "m") and body.local_ty(t[1][1][0]) in ("char", "u8", "u32") and not t[1][1][1]:
+                consts |= {int(v) for v, _ in t[2]}
+        for bb, c in body.calls():
+            if bb not in body.live_blocks:
+                continue
+            d = c.decl or ""
+            if d.startswith("core::char::methods::<impl char>::") or d.startswith("core::num::<impl u8>::is_") or d.startswith("core::unicode"):
+                m = d.split("::")[-1]
+                if m in ASCII_CHAR_PREDICATES:
+                    preds.add(m)
+                elif m not in ("len_utf8", "to_string", "fmt"):
+                    other_calls.append((m, c.span))
+    r.instance("no-unicode-predicate", not other_calls,
+               "verify_keyspace_name_is_valid classifies characters with %s: a Unicode-aware predicate accepts letters and digits outside ASCII, which are then interpolated into `USE <name>`"
+               % sorted({m for m, _ in other_calls}), other_calls[0][1] if other_calls else b.span)
+    stray = sorted(consts - KEYSPACE_ALPHABET_BOUNDS)
+    r.instance("alphabet-bounds", not stray and (bool(preds) or consts == KEYSPACE_ALPHABET_BOUNDS),
+               "the characters compared against must be exactly the bounds of a-z, A-Z, 0-9 and '_' (or ASCII predicates): found %s, predicates %s" % (sorted(consts), sorted(preds)), b.span)
+    r.instance("length-limit-48", has_48, "the length must be compared with 48", b.span)
+    # and an illegal character is an error exit: the Ok exit is not reachable from the reject edge - covered by the who-constructs census (R4) + this alphabet
 
 
 def check(ctx):
     facts = inline_view(ctx.facts("default"))
-    for fn in (r1, r2, r3, r4, r5, r6, r7):
+    for fn in (r1, r2, r3, r4, r5, r6, r7, r8):
         try:
             fn(ctx, facts)
         except AnchorLost as ex:
